@@ -33,6 +33,9 @@ type kaStep struct {
 func runKeepAlive(steps []kaStep, k, req int, unit time.Duration) string {
 	r := newBrokerRun("mockSuccess", 2)
 	defer r.cleanup()
+	// the server's own KeepAlive option (a default of the configuration) is set to something short: what counts for a
+	// connection is the keep-alive its CONNECT negotiated (C19: "a client that negotiated a keep-alive of K seconds")
+	r.svr.KeepAlive = 1
 	if unit == 0 {
 		unit = time.Duration(k) * time.Second / 10
 	}
